@@ -1,7 +1,7 @@
 /-
   JRV.Model.Server — the dispatcher of jsonrpclib/SimpleJSONRPCServer.py, transcribed statement by
   statement: `get_version`, `validate_request`, `SimpleJSONRPCDispatcher._dispatch`,
-  `_marshaled_single_dispatch`, `_unmarshaled_dispatch`, `_marshaled_dispatch`.
+  `_marshaled_single_dispatch`, `_unmarshaled_dispatch`, `_marshaled_dispatch`, `_safe_jdumps`.
 
   * The input of `marshaledDispatch` is the *outcome of `jsonrpclib.loads`* (`ParseOutcome`): the JSON
     text layer is abstract (DESIGN 3.4) and with class translation on `jsonclass.load` may turn any part
@@ -52,15 +52,18 @@ def codeUnknown : Int := -32601
 def codeParams : Int := -32602
 def codeInternal : Int := -32603
 
-/-- The `Fault(<code>, …)` sites of the code by enclosing function, in source order, with the constant
-    the model uses at the corresponding place (compared with the extracted table on every run). -/
+/-- The `Fault(<code>, …)` sites of the code as a multiset of (enclosing function, code), listed in the
+    canonical order of the extractor (function name, then code; a call of a local helper that builds the
+    Fault counts as a site of the caller), with the constant the model uses at the corresponding place
+    (compared with the extracted table on every run). -/
 def faultSiteTable : List (String × Int) := [
-  ("validate_request", codeInvalid), ("validate_request", codeInvalid), ("validate_request", codeInvalid),
-  ("_unmarshaled_dispatch", codeInvalid),
-  ("_marshaled_dispatch", codeParse), ("_marshaled_dispatch", codeInternal),
+  ("_dispatch", codeParams), ("_dispatch", codeUnknown),
+  ("_marshaled_dispatch", codeParse),
   ("_marshaled_single_dispatch", codeInternal), ("_marshaled_single_dispatch", codeInternal),
   ("_method_exception_fault", codeInternal),
-  ("_dispatch", codeParams), ("_dispatch", codeUnknown)]
+  ("_safe_jdumps", codeInternal),
+  ("_unmarshaled_dispatch", codeInvalid),
+  ("validate_request", codeInvalid), ("validate_request", codeInvalid), ("validate_request", codeInvalid)]
 
 def msgParse : String := "Request <data> invalid. (<error>)"
 def msgNoData : String := "Request invalid -- no request data."
@@ -69,6 +72,7 @@ def msgNoVersion : String := "Request <request> invalid."
 def msgBadMethodOrParams : String := "Invalid request parameters or method."
 def msgUnknown (method : String) : String := "Method " ++ method ++ " not supported."
 def msgParams : String := "Invalid parameters: <error>"
+/-- `"{0}:{1}".format(type(ex).__name__, ex)` for the `TypeError` of `json.dumps` (CPython's wording is a tag). -/
 def msgSerialize : String := "TypeError:<not JSON serializable>"
 /-- `"{0}:{1}".format(type(ex).__name__, ex)`. -/
 def msgExc (cls text : String) : String := cls ++ ":" ++ text
@@ -141,7 +145,7 @@ end
 
 /-- `jsonrpclib.jdumps(v)`: the document that is sent, or `TypeError`. -/
 def jdumps (v : PyVal) : PyM PyVal :=
-  if serialisable v then pure v else raise "TypeError" (.str "not JSON serializable")
+  if serialisable v then pure v else raise "TypeError" (.str "<not JSON serializable>")
 
 /- ---------- get_version / validate_request ---------- -/
 
@@ -194,7 +198,9 @@ inductive DispResult where
 deriving DecidableEq
 
 /-- The exception seen by the handlers around `func(*params)` / `func(**params)`; `inBody` is the test
-    `sys.exc_info()[2].tb_next is not None`: the exception was raised below the frame of `_dispatch`. -/
+    `sys.exc_info()[2].tb_next is not None`: the traceback has an entry below the frame of `_dispatch`.
+    It is computed from the behaviour's `depth` (`CallOutcome.raised`), or `false` when the call
+    expression itself fails in the frame of `_dispatch` (binding, non-callable object). -/
 structure CallExc where
   cls : String
   text : String
@@ -221,15 +227,20 @@ def invoke (t : Target) (func : Option Callable) (method params : PyVal) : DispR
     if binds c.sig params then
       match c.body params with
       | .ret v => (.value v, [.call t method params])
-      | .raised cls text te _ => (handleCallExc ⟨cls, text, te, true⟩, [.call t method params])
+      | .raised cls text te _ depth => (handleCallExc ⟨cls, text, te, decide (depth ≠ 0)⟩, [.call t method params])
     else (handleCallExc ⟨"TypeError", "arguments do not bind", true, false⟩, [])
 
 def unknownMethod (m : String) : DispResult := .fault codeUnknown (msgUnknown m)
 
-/-- `resolve_dotted_attribute(self.instance, method, True)` then the call, or "unknown method". -/
+/-- `resolve_dotted_attribute(self.instance, method, True)` then the call, or "unknown method" — also
+    when the name resolves to an attribute bound to `None` (`if func is not None: … else: unknown`). -/
 def resolveAndInvoke (inst : Instance) (m : String) (method params : PyVal) : DispResult × List Effect :=
   match resolveDotted inst m with
-  | some a => invoke .attr a.callable method params
+  | some a =>
+    match a.callable with
+    | some c => invoke .attr (some c) method params
+    | Option.none =>
+      if a.isNoneValue then (unknownMethod m, []) else invoke .attr Option.none method params
   | Option.none => (unknownMethod m, [])
 
 /-- `SimpleJSONRPCDispatcher._dispatch(method, params, config)` for a string method name (the only
@@ -249,7 +260,7 @@ def dispatch (reg : Registry) (m : String) (params : PyVal) : PyM DispResult × 
         let eff := [Effect.call .instDispatch (.str m) params]
         match d (.str m) params with
         | .ret v => (.ok (.value v), eff)
-        | .raised cls text _ isAttr =>
+        | .raised cls text _ isAttr _ =>
           if isAttr then
             let (r, eff') := resolveAndInvoke inst m (.str m) params
             (.ok r, eff ++ eff')
@@ -281,7 +292,7 @@ def runDispatcher (s : Server) (method params : PyVal) : PyM DispResult × List 
   | some d =>
     match d method params with
     | .ret v => (.ok (.value v), [.call .custom method params])
-    | .raised cls text _ _ => (.error { cls := cls, arg := .str text }, [.call .custom method params])
+    | .raised cls text _ _ _ => (.error { cls := cls, arg := .str text }, [.call .custom method params])
   | Option.none =>
     match method with
     | .str m => dispatch s.reg m params
@@ -395,6 +406,43 @@ deriving Repr, DecidableEq, Inhabited
 /-- `fault.response()`: `jdumps(dump(fault, is_response=True, rpcid=None, …))`. -/
 def faultResponse (cfg : Config) (f : Fault) : PyM PyVal := jdumps (faultDump cfg f)
 
+/-- `fault.response(version=v)` with `v` 1.0 or 2.0 (`10`/`20`): the error object in the form of that
+    version, whatever the configuration says, then `jdumps`. -/
+def faultResponseAs (ver : Nat) (f : Fault) : PyM PyVal :=
+  jdumps (Payload.error ver f.rpcid f.code f.message f.data)
+
+/-- `_safe_jdumps(response)`: the document sent for one response dictionary — the response itself, or,
+    when `jdumps` rejects it, a −32603 error response that keeps the response's id if that id can be
+    serialised on its own (else `null`), in the form (has `jsonrpc` → 2.0, else 1.0) of the response
+    it replaces.  `response.get("id")` and `"jsonrpc" in response` raise on a non-dictionary. -/
+def safeJdumps (response : PyVal) : PyM PyVal :=
+  match jdumps response with
+  | .ok d => pure d
+  | .error ex =>
+    match dictGet response "id" .none with
+    | .error e => .error e
+    | .ok rid =>
+      -- `try: jdumps(rpcid) except Exception: rpcid = None`
+      let rpcid := match jdumps rid with
+        | .ok _ => rid
+        | .error _ => PyVal.none
+      match containsStr "jsonrpc" response with
+      | .error e => .error e
+      | .ok hasJsonrpc => faultResponseAs (if hasJsonrpc then 20 else 10) (internalFault ex rpcid)
+
+/-- `", ".join(self._safe_jdumps(entry) for entry in response)` inside `"[{0}]"`: the documents of the
+    array that is sent, left to right (the text layer is abstract: a bracketed, comma-separated list
+    of JSON texts is the JSON text of the list of their documents — the law MultiCall relies on too). -/
+def safeJdumpsAll : List PyVal → PyM (List PyVal)
+  | [] => pure []
+  | r :: rest =>
+    match safeJdumps r with
+    | .error e => .error e
+    | .ok d =>
+      match safeJdumpsAll rest with
+      | .error e => .error e
+      | .ok ds => pure (d :: ds)
+
 /-- `_marshaled_dispatch(data, dispatch_method)`. -/
 def marshaledDispatch (s : Server) (po : ParseOutcome) : PyM Reply × List Effect :=
   match po with
@@ -411,7 +459,9 @@ def marshaledDispatch (s : Server) (po : ParseOutcome) : PyM Reply × List Effec
       match jdumps response with
       | .ok d => (.ok (.doc d), eff)
       | .error _ =>
-        -- `except Exception` around `jdumps`
-        ((faultResponse s.cfg { code := .int codeInternal, message := .str msgSerialize }).map Reply.doc, eff)
+        -- `except Exception` around `jdumps`: every response is serialised on its own
+        match response with
+        | .list responses => ((safeJdumpsAll responses).map (fun ds => Reply.doc (.list ds)), eff)
+        | r => ((safeJdumps r).map Reply.doc, eff)
 
 end JRV.Server
